@@ -13,6 +13,7 @@ mod c12;
 mod c14;
 mod c16;
 mod c18;
+mod c19;
 mod classify;
 mod engine;
 mod json;
@@ -71,6 +72,7 @@ fn main() {
         "C14" => dispatch(&c14::C14, mode, &rest),
         "C16" => dispatch(&c16::C16, mode, &rest),
         "C18" => dispatch(&c18::C18, mode, &rest),
+        "C19" => dispatch(&c19::C19, mode, &rest),
         _ => {
             eprintln!("unknown property {id}");
             2
